@@ -117,7 +117,7 @@ func genC07(t *rapid.T) CaseC07 {
 	}
 	if rapid.IntRange(0, 3).Draw(t, "with-pointer") == 0 {
 		// the section need not start right behind the pointer_field
-		room := 255
+		room := 182 // what fits in front of a section inside one 184-byte payload (C07 does not speak of pointer_field at all)
 		if c.Carrier != "payload" {
 			room = 184 - 1 - (12 + 4*n)
 		}
@@ -163,7 +163,8 @@ func c07Compare(what string, pat psi.PAT, m *ref.PAT, probe []int) *hx.Failure {
 	}
 	pid, err := pat.SPTSpmtPID()
 	if len(m.Entries) == 1 && m.Entries[0].Program != 0 {
-		if err != nil || pid != m.Entries[0].PID {
+		// (one section of a multi-section table does not show how many entries "the table" has: asserted for single-section tables)
+		if (err != nil || pid != m.Entries[0].PID) && m.LastSecNum == 0 {
 			return hx.Failf("spts", "%s: SPTSpmtPID() = (%d, %v), want %d", what, pid, err, m.Entries[0].PID)
 		}
 	} else if err == nil {
